@@ -15,14 +15,16 @@ let zc (b : bytes) : bytes option =
   match Hashtbl.find_opt zc_table k with
   | Some (Some c) -> Some (bytes_of_string c)
   | Some None -> None
-  | None -> raise (Oracle_miss "zc")
+  | None ->
+      raise (Oracle_miss (Printf.sprintf "zc(block of %d bytes; table has blocks of %s bytes)" (String.length k)
+                            (String.concat "," (Hashtbl.fold (fun kk _ acc -> string_of_int (String.length kk) :: acc) zc_table []))))
 
 let zd (b : bytes) : bytes option =
   let k = string_of_bytes b in
   match Hashtbl.find_opt zd_table k with
   | Some (Some d) -> Some (bytes_of_string d)
   | Some None -> None
-  | None -> raise (Oracle_miss "zd")
+  | None -> raise (Oracle_miss (Printf.sprintf "zd(block of %d bytes)" (String.length k)))
 
 let raw_of_hex h = string_of_bytes (bytes_of_hex h)
 
@@ -101,7 +103,10 @@ let dump_node (now : z) (nd : node) : string =
   Buffer.add_string buf (Printf.sprintf " sends %s cb %s" (string_of_n nd.nd_sends) (string_of_n nd.nd_cb));
   Buffer.contents buf
 
+let no_events = ref false
+
 let dump_events (evs : mevent list) : string =
+  let evs = if !no_events then [] else evs in
   let buf = Buffer.create 64 in
   Buffer.add_string buf (Printf.sprintf "ev %d" (List.length evs));
   List.iter
@@ -330,10 +335,12 @@ let () =
          case_name := String.sub line 5 (String.length line - 5);
          world := empty_world;
          skipping := false;
+         no_events := false;
          Monitor.reset_case ();
          mon_nodes := 0;
          incr n_cases
        end
+       else if line = "OPT noevents" then no_events := true
        else if line.[0] = '=' then () (* stray observation *)
        else begin
          let op_line = !lineno in
@@ -363,6 +370,13 @@ let () =
              | "EVAL" -> Monitor.on_eval (next_int mc) impl
              | "SYN" -> Monitor.on_syn (next_int mc) impl
              | "CATCHUP" -> Monitor.on_catchup (next_int mc) impl
+             | "DELTA" ->
+                 let i = next_int mc in
+                 let _dg = parse_digest mc in
+                 let mtu = next_int mc in
+                 let ns = next_int mc in
+                 let sched = repeat ns (fun () -> next_id mc) in
+                 Monitor.on_delta i mtu sched impl
              | _ -> ());
             List.iter
               (fun f ->
@@ -376,6 +390,8 @@ let () =
            try (match exec c with Obs s -> Some s | Skip -> None) with
            | Oracle_miss w ->
                if impl = "PANIC" then Some ("<no abort: the model went on to ask the " ^ w ^ " oracle>")
+               else if String.length w >= 2 && String.sub w 0 2 = "zc" then
+                 Some ("<the model flushes a block the implementation never produced: truncation points differ; " ^ w ^ ">")
                else begin
                  incr n_inconclusive; skipping := true;
                  Printf.printf "INCONCLUSIVE case=%s line=%d oracle=%s\n" !case_name op_line w; None
